@@ -481,7 +481,7 @@ def run(ck):
         for ch in vf.chunks(cases, chunk):
             if enough():
                 break
-            ck.compare_cases(hcmd, dcmd, ch, label=label, nontrivial=nontriv, monitor=monitor)
+            ck.compare_cases(hcmd, dcmd, ch, label=label, nontrivial=nontriv, monitor=monitor, timeout=240)
 
     go(vf.corpus_cases(PID), "corpus")
     intensify = not ck.proof_ok
@@ -490,7 +490,7 @@ def run(ck):
     go(scalar_sweep_cases(rng, "float"), "sweep-float")
     go(scalar_sweep_cases(rng, "str"), "sweep-str")
     go(bad_doc_cases(), "bad-docs")
-    n = ck.scale(6000, 400000) * mult
+    n = ck.scale(6000, 200000) * mult
     trees = [tree_case(rng, 1 + rng.below(6), 1 + rng.below(5)) for _ in range(n)]
     go(trees, "trees")
     deep = [deep_case(rng, d) for d in ([1, 2, 3, 64, 511, 512] + [rng.below(513) for _ in range(ck.scale(6, 60))])]
